@@ -153,6 +153,17 @@ func runStepsSSC(alg refcrypto.Alg, ssc []byte, steps []step) result {
 			break
 		}
 		d, sw := answer(st.A)
+		if derr != nil && len(w.Cmds) == i && st.C.DataLen > 65535-40 {
+			// nothing was put on the wire: the protected form of this command (data + data-object overhead + MAC
+			// object) does not fit the 65535-byte command data field; refusing it is the well-formed behaviour.
+			// The history cannot continue after a refused command.
+			res.Outcome = "refused-before-sending(protected data would exceed 65535)"
+			res.LibSSC, res.ChipSSC = lib.SSC(), chip.SSCBytes()
+			if !bytes.Equal(res.LibSSC, res.ChipSSC) {
+				fail("ssc-diverged/refused-command-advanced-counter", fmt.Sprintf("step %d %+v was refused before sending, but the terminal counter is %x and the chip's %x", i, st.C, res.LibSSC, res.ChipSSC))
+			}
+			return res
+		}
 		if derr != nil {
 			fail("genuine-response-rejected", fmt.Sprintf("step %d %+v answer %s: %v", i, st.C, ansName(st.A), derr))
 			break
@@ -256,11 +267,14 @@ func run(c *vc.Ctx) {
 			c.Violation(sec, r.Key, r.What, caseRec{int(alg), ssc, st}, func() bool { return runSteps(alg, ssc, st).Key != "" })
 			return "VIOLATION"
 		}
+		if r.Outcome != "" {
+			return r.Outcome
+		}
 		return "ok"
 	}
 	// part 1
 	sec1 := "commands: full product"
-	dls := []int{0, 1, 7, 8, 9, 15, 16, 17, 223, 224, 231, 239, 240, 255, 256, 257, 65000, 65264}
+	dls := []int{0, 1, 7, 8, 9, 15, 16, 17, 223, 224, 231, 239, 240, 255, 256, 257, 65000, 65264, 65500, 65503, 65504, 65511, 65512, 65519, 65520, 65534, 65535}
 	les := []int{0, 1, 255, 256, 257, 65535, 65536}
 	c.SecBound(sec1, fmt.Sprintf("CLA{00,10} x INS{A4,B1} x datalen %v x Le %v x 4 algs x SSC{0,mid,2^n-3}", dls, les))
 	for _, alg := range smdrv.Algs {
